@@ -1055,6 +1055,17 @@ class ConvertInstance:
                             local_temporaries.add(root_id)
                             invalid_temporaries.discard(root_id)
 
+                    elif isinstance(stmt, ir.InlineCode) and isinstance(
+                        stmt.result, Temporary
+                    ):
+                        # the result of inline code is defined like the result of an expression
+                        root = stmt.result._root
+
+                        if not root._maybe_uninitialized:
+                            root_id = id(root)
+                            local_temporaries.add(root_id)
+                            invalid_temporaries.discard(root_id)
+
             return local_temporaries
 
         search_invalid_temporaries(ctx.code())
